@@ -3,6 +3,7 @@ import Proofs.Resolve
 import Proofs.WeMapRun
 import Proofs.HeadlinesAll
 import Proofs.DerivedOps
+import Proofs.DerivedReach
 /-! C04 — webentity resolution is longest-prefix match over the net prefix edits, in full: in every reachable
     state resolution returns the id at the longest stem-prefix of the query that carries one (`C04_resolve`,
     Proofs/Resolve), and over histories the attachment map is exactly the fold of the abstract edits
@@ -158,6 +159,11 @@ theorem C04_delete_unchecked_fails {s : State} {t : T} (hs : Shape s t) (ps : Li
       (∀ q ∈ before, s.lruNode (lruIter q) ≠ none) ∧
       s.deleteUnchecked ps = (s.run (before.map (fun q => Op.removePrefix q none)), .error (.other "AttributeError")) :=
   Traph.deleteUnchecked_fail hs ps hmiss
+
+/-- …and in either case the index it leaves is again a reachable one: every theorem about reachable states applies after an
+    unchecked deletion, whatever prefixes it was given -/
+theorem C04_delete_unchecked_reachable {s : State} (h : Reachable s) (ps : List Bytes) :
+    Reachable (s.deleteUnchecked ps).1 := Traph.deleteUnchecked_reachable_any h ps
 
 section EveryHistory
 open Traph State Pag Layout
